@@ -15,6 +15,8 @@ def cases_for(prop):
                 "PurificationRBM.gamma[", "DensityMatrix."),
         "C03": ("BinaryRBM.effective_energy_gradient", "PurificationRBM.effective_energy_gradient"),
         "C05": ("BinaryRBM.prob_", "PurificationRBM.prob_"),
+        "C10": ("NLL[", "KL[", "fidelity["),
+        "C08": ("SigmaZ",),
     }.get(prop, ())
     return [c for c in allc if c.name.startswith(pick)]
 
